@@ -313,3 +313,8 @@ Proof.
   intros e H. pose proof (sweep _ _ exp_loop_sweep e ltac:(lia)) as Hs. apply orb_true_iff in Hs.
   destruct Hs as [Hs|Hs]; [apply Z.eqb_eq in Hs; lia|]. apply list_eqb_eq. exact Hs.
 Qed.
+
+Theorem i32_i64_digits_proof :
+  (forall v, -2147483648 <= v < 2147483648 -> f_out (fmt_i32 v) = dec_signed v) /\
+  (forall v, -9223372036854775808 <= v < 9223372036854775808 -> f_out (fmt_i64 v) = dec_signed v).
+Proof. split; [exact fmt_i32_digits_proof|exact fmt_i64_digits_proof]. Qed.
